@@ -40,6 +40,7 @@ DEFS = [
     ("concrete", '#[ts(concrete(B = i32))] pub struct @<A, B> { pub a: A, pub b: B }', ["A"], {"concrete": {"B": "i32"}}),
     ("concrete with default", '#[ts(concrete(B = i32))] pub struct @<A, B = u8> { pub a: A, pub b: B }', ["A"], {"concrete": {"B": "i32"}}),
     ("all concrete with default", '#[ts(concrete(T = bool))] pub enum @<T = bool> { A(T), B { x: Vec<T> }, C }', [], {"concrete": {"T": "bool"}}),
+    ("concrete in two attributes", '#[ts(concrete(A = i32))] #[ts(concrete(B = String))] pub struct @<C, A, B> { pub a: A, pub b: Vec<B>, pub c: Option<C> }', ["C"], {"concrete": {"A": "i32", "B": "String"}}),
     ("enum", "pub enum @<T> { A(T), B { x: Vec<T> }, C }", ["T"], {}),
     ("enum tagged", '#[ts(tag = "t", content = "c")] pub enum @<T> { A(T), B { x: Option<T> }, C(T, T) }', ["T"], {}),
     ("newtype", "pub struct @<T>(pub T);", ["T"], {}),
